@@ -182,6 +182,30 @@ theorem ops_preserve_WF_partial {t : ObjectTree} (w : WF t) (opcode info th : Na
   exact ⟨t', i, h, w', fr.nlive, fr.liven, fun x hx => ⟨fr.same x hx, fr.livex x hx⟩,
     fr.pn, fr.pvn, fr.nxn, fr.fin, fr.lan⟩
 
+/-- **detach_preserves_WF** — `detach(obj, arg)` under its contract (`detachPre`: both live, `arg`'s
+parent link is `obj`) returns normally, the pool stays well-formed, the live set and names are
+unchanged, and the links change exactly as unlinking `arg` from its sibling list prescribes. -/
+theorem detach_preserves_WF {t : ObjectTree} (w : WF t) {obj arg : Nat} (hpre : detachPre t obj arg = true) :
+    ∃ t', t.detach obj arg = .ok t' ∧ WF t' ∧
+      t'.pool.size = t.pool.size ∧ (∀ x, live t' x = live t x) ∧ (∀ x, (slot t' x).name = (slot t x).name) ∧
+      (∀ x, P t' x = if x = arg then INV else P t x) ∧
+      (∀ x, Pv t' x = if x = arg then INV else if x = Nx t arg ∧ Nx t arg ≠ INV then Pv t arg else Pv t x) ∧
+      (∀ x, Nx t' x = if x = arg then INV else if x = Pv t arg ∧ Pv t arg ≠ INV then Nx t arg else Nx t x) ∧
+      (∀ x, Fi t' x = if x = obj ∧ Fi t obj = arg then Nx t arg else Fi t x) ∧
+      (∀ x, La t' x = if x = obj ∧ La t obj = arg then Pv t arg else La t x) := detach_wf w hpre
+
+/-- **append_preserves_WF** — `append(obj, arg)` under its contract (`appendPre`: both live, `arg`
+detached, `obj` not inside `arg`'s subtree) returns normally, the pool stays well-formed, the live
+set and names are unchanged, and `arg` becomes the last child of `obj`. -/
+theorem append_preserves_WF {t : ObjectTree} (w : WF t) {obj arg : Nat} (hpre : appendPre t obj arg = true) :
+    ∃ t', t.append obj arg = .ok t' ∧ WF t' ∧
+      t'.pool.size = t.pool.size ∧ (∀ x, live t' x = live t x) ∧ (∀ x, (slot t' x).name = (slot t x).name) ∧
+      (∀ x, P t' x = if x = arg then obj else P t x) ∧
+      (∀ x, Pv t' x = if x = arg then La t obj else Pv t x) ∧
+      (∀ x, Nx t' x = if x = arg then INV else if x = La t obj ∧ La t obj ≠ INV then arg else Nx t x) ∧
+      (∀ x, Fi t' x = if x = obj ∧ La t obj = INV then arg else Fi t x) ∧
+      (∀ x, La t' x = if x = obj then arg else La t x) := append_wf w hpre
+
 /-- **history_partial** — induction over histories, for the operation proved so far: any sequence
 of `newObject` calls from a well-formed pool (in particular from the empty pool) that stays below
 `2^32-1` slots never fails and ends in a well-formed pool.  Missing: the other four operations (see
